@@ -26,6 +26,9 @@ func runC05(c *Ctx) {
 	c05OwnedSocket(c)
 	// a membership change racing with a dispatch must not deadlock the listener (rule "lock-order", shared with C09)
 	c09LockOrder(c)
+	// "with no backend registered the request is dropped without disturbing the proxy": no index of the pool's own
+	// methods can be out of range, whatever the membership (the prover's obligations, shared with C08)
+	c08PanicsIn(c, "empty", "(*RoundRobinBackend).")
 }
 
 // c05Stable: between membership changes nobody reorders or overwrites the rotation: only AddBackend/RemoveBackend
